@@ -34,7 +34,10 @@ import arim.io
 
 drv = arimgen.Driver(chk.ocaml_driver("C10"))
 rng = chk.rng
-Q = chk.tier == "quick"
+# second tie: the interpolation kernel is re-translated from the current source (typed translator) and checked
+# convertible with Model.ScatMatrix.interp; a broken tie deepens the correspondence run (thorough sizes)
+_ties = chk.translation_tie()
+Q = chk.tier == "quick" and all(v == "ok" for v in _ties.values())
 evaluations = 0
 nontrivial = set()
 samples = []
